@@ -254,3 +254,11 @@ Proof.
   unfold ch0_run. rewrite fold_left_app. cbn [fold_left]. apply fold_errs_mono.
   cbn [ch0_step]. rewrite Hn. cbn [h_errs]. apply in_or_app. right. left. reflexivity.
 Qed.
+
+(* non-vacuity: an out-of-turn sequence (a refusal, then the broker carries on) *)
+Lemma adversarial_example cfg :
+  let fs := [IClose 403; ITune 0 4096 60; ITune 7 0 60; IOpenOk] in
+  h_errs (ch0_run cfg fs) = [Some 403] /\
+  h_out (ch0_run cfg fs) = [OTuneOk 65535 4096 (c_heartbeat cfg); OOpen (c_vhost cfg);
+                            OTuneOk 7 131072 (c_heartbeat cfg); OOpen (c_vhost cfg)].
+Proof. split; reflexivity. Qed.
